@@ -65,6 +65,18 @@ void ptOut(Pt *p, int x);
 void ptScale(Pt *p, int k);
 int arrTotal(const Arr *a);
 
+// a class whose constructor takes an array (converted from a list in Python)
+class Bag {
+public:
+    Bag(const int *vals, int n);
+    ~Bag();
+    int total() const;
+private:
+    unsigned m_magic;
+    int m_id;
+    int m_total;
+};
+
 Item *makeItem(int v);
 Item *borrowItem();
 Item *defaultItem();
